@@ -32,6 +32,11 @@ def classify(why, f, c, o):
     # D15: worker dies after writing its exit announcement, still holding the result-queue write lock
     if hang and "rq.wlock.rel" in crash_at:
         return {"defect": "D15"}
+    # D17: the last pending work item is a cancelled one: it is dropped without any event and the manager goes back to sleep
+    #      although a shutdown / interpreter exit is waiting for it
+    if hang and "cancel" in ops and mgr_wait and not f["crashes"] and "del" not in ops and not o.get("pending") \
+            and any("@tjoin(mgr)" in b for b in blocked):
+        return {"defect": "D17"}
     # D16: abrupt death after a graceful shutdown began, while the manager is in its final join loop
     if hang and f["crashes"] and any(b.startswith("mgr@pjoin") for b in blocked) and any(op.startswith("shutdown") for op in ops):
         return {"defect": "D16"}
